@@ -51,6 +51,14 @@ def record_scenarios(jobs, procs=8):
 def validate_batch(scs, tag, invariants=INVARIANTS):
     """validate a list of executed scenarios (same nd, np) in one TLC run; returns list of findings
        [{scenario, violated, line(in scenario), step, diag, pviol}] and number of traces accepted"""
+    # the hash size is a constant of the trace file (header): one TLC run per hash size
+    sizes = sorted({s["hdr"].get("hs", 16) for s in scs})
+    if len(sizes) > 1:
+        findings, accepted, states = [], 0, 0
+        for hs in sizes:
+            f, a, st = validate_batch([s for s in scs if s["hdr"].get("hs", 16) == hs], "%s-hs%d" % (tag, hs), invariants)
+            findings += f; accepted += a; states += st
+        return findings, accepted, states
     findings = []
     accepted = 0
     rest = list(scs)
@@ -166,7 +174,8 @@ def write_mc_cfg(name, steps, damage=2, stamp=4, invariant="NoOtherViolation", n
 
 
 # ---------------------------------------------------------------------------------------
-SHAPES = [(2, 2), (3, 2), (2, 1), (3, 3), (2, 3), (4, 2), (1, 1), (3, 1), (2, 6), (4, 4), (5, 2), (2, 5)]
+SHAPES = [(2, 2), (3, 2), (2, 1), (3, 3), (2, 3), (4, 2), (1, 1), (3, 1), (2, 6), (4, 4), (5, 2), (2, 5),
+          (2, 2, {"hash_size": 8}), (3, 1, {"splits": [2]}), (2, 2, {"splits": [1, 3]}), (3, 2, {"hash_size": 4})]
 
 
 def standard_run(pid, tier, profiles, nquick, nthorough, steps=(18, 26), directed_jobs=(), scripts=(), mc_steps=(4, 5),
@@ -212,8 +221,10 @@ def standard_run(pid, tier, profiles, nquick, nthorough, steps=(18, 26), directe
     jobs = list(directed_jobs(s0)) if callable(directed_jobs) else list(directed_jobs)
     n = nquick if quick else nthorough
     for i in range(n):
-        nd, np_ = shapes[i % len(shapes)]
-        jobs.append((s0 + 100 + i, dict(nd=nd, np=np_, copies=2), profiles[i % len(profiles)], steps[0] if quick else steps[1], None))
+        sh = shapes[i % len(shapes)]
+        # a shape is (data disks, parity levels[, extra configuration: hash_size, splits, ...])
+        confkw = dict(nd=sh[0], np=sh[1], copies=2, **(sh[2] if len(sh) > 2 else {}))
+        jobs.append((s0 + 100 + i, confkw, profiles[i % len(profiles)], steps[0] if quick else steps[1], None))
     scs = record_scenarios(jobs, procs=8)
     for s in scs:
         if s.get("err"):
@@ -239,8 +250,10 @@ def standard_run(pid, tier, profiles, nquick, nthorough, steps=(18, 26), directe
     cov["samples"] = [{"seed": s["seed"], "profile": s["profile"], "conf": s["conf"], "steps": s["steps"]} for s in scs[:3]]
     cov.update({"states": states, "transitions": trans, "traces_validated_against_impl": len(scs),
                 "traces_accepted_without_finding": accepted, "events_on_real_arrays": nev,
-                "configurations": sorted(set("%dd/%dp" % (s["conf"]["nd"], s["conf"]["np"]) for s in scs)),
+                "configurations": sorted(set("%dd/%dp%s" % (s["conf"]["nd"], s["conf"]["np"],
+                                                            "".join(" %s=%s" % kv for kv in sorted(s["conf"].items()) if kv[0] not in ("nd", "np", "copies")))
+                                             for s in scs)),
                 "rule": rule})
     return v.finish(cov, assumptions=list(assumptions) + [
         "hash and parity abstraction of Array.tla (a collision of random 1 KiB blocks cannot repeat: violations are re-recorded with fresh data before being reported)",
-        "inode-less scan (no usable UUID in the sandbox), hash size 16, murmur3, forced alphabetical scan order"])
+        "inode-less scan (no usable UUID in the sandbox), forced alphabetical scan order, sequential disk scan"])
